@@ -50,7 +50,7 @@ pub open spec fn retried(m: data::Message, t: i64) -> data::Message { data::Mess
 pub open spec fn errored(m: data::Message, t: i64) -> data::Message { data::Message { status: MessageStatus::Error, update_time: t, ..m } }
 pub open spec fn redone(m: data::Message, t: i64) -> data::Message { data::Message { status: MessageStatus::Created, retry_times: 0, update_time: t, ..m } }
 pub open spec fn others_same(a: StoreAbs, b: StoreAbs) -> bool {
-    a.tasks == b.tasks && a.procs == b.procs && a.models == b.models && a.events == b.events && a.query_ok == b.query_ok
+    a.tasks == b.tasks && a.procs == b.procs && a.models == b.models && a.events == b.events && a.query_ok == b.query_ok && a.write_ok == b.write_ok
 }
 pub proof fn lemma_keys()
     ensures "pid"@ != "id"@, "tid"@ != "id"@, "tid"@ != "pid"@, "status"@ != "id"@, "status"@ != "pid"@, "status"@ != "tid"@,
